@@ -296,6 +296,21 @@ def case_oracle(case, *, cexec=False):
                     m = compare_values(res[key], npref.coerce(
                         ref[idx], res[key].dtype))
                     if m:
+                        # is inlining at fault, or code generation (C01 and
+                        # its listed loopy findings)?  The same program
+                        # without any call, compiled the same way, decides.
+                        try:
+                            kd = generate_and_compile(
+                                pt.transform.deduplicate(gd))
+                            rd = kd(**{k: v for k, v in env.items()
+                                       if k in kd.kernel.arg_dict})
+                            if rd[key].tobytes() == res[key].tobytes():
+                                info["codegen_deviation_without_calls"] = True
+                                break
+                        except HarnessError:
+                            raise
+                        except Exception:  # noqa: BLE001
+                            pass
                         return Failure("inlined-codegen-value", f"{key}: {m}",
                                        "generate_loopy"), info
             except HarnessError:
